@@ -86,10 +86,15 @@ def run_variant(args):
 
 def global_twins(ctx, prop):
     """behaviour-preserving whole-tree transformations every check must stay silent on"""
-    from .transforms import alpha_rename, document, flip_ifs, reformat
+    from .transforms import (alpha_rename, dict_calls, document, flip_ifs, fold_returns, guard_clauses, no_loop_else, reformat,
+                             unfold_returns)
     out = []
     for name, fn in (("twin-whole-tree-reformatted", reformat), ("twin-all-locals-renamed", alpha_rename),
-                     ("twin-two-armed-ifs-flipped", flip_ifs), ("twin-documented-and-annotated", document)):
+                     ("twin-two-armed-ifs-flipped", flip_ifs), ("twin-documented-and-annotated", document),
+                     # second generation (statement-level rewrites the refactoring rounds used most): silent, obligation counts may differ
+                     ("twin-assign-then-return-folded", fold_returns), ("twin-returns-through-a-temporary", unfold_returns),
+                     ("twin-else-after-return-dropped", guard_clauses), ("twin-loop-else-without-break-dropped", no_loop_else),
+                     ("twin-dict-literals-as-dict-calls", dict_calls)):
         ov = fn(ctx.repo)
         out.append(Variant(name, prop, [(rel, None, txt) for rel, txt in sorted(ov.items())], "silent"))
     return out
